@@ -1,6 +1,6 @@
 (* C37/Seq.v — sequential use of the API (one call at a time, queued removals interleaving freely), as the harness
    drives it, and the proof that every such run of the model passes the executable oracle [Spec.spec_ok] as long as
-   the history stays outside the two known classes.  This ties the oracle that judges the implementation's output to
+   the history stays outside the known class (request_name).  This ties the oracle that judges the implementation's output to
    the invariants of C37/Proofs.v (and shows the oracle raises no alarm on code that behaves like the model). *)
 From Coq Require Import List NArith Bool Arith Lia.
 From ZV Require Import Base.Bytes Base.WinnowFacts C37.Model C37.Spec C37.Proofs C37.Sched.
@@ -37,7 +37,7 @@ Lemma exec_with_thr i rest c t :
 Proof.
   destruct i as [h r|h|h|h' h|p r|p r|p r|r]; cbn [exec with_thr subs pend held thr evs].
   - destruct (add_match r (subs c) (evs c)). reflexivity.
-  - destruct (take_last h (held c)) as [[r hl]|]; [|reflexivity]. destruct (remove_match r (subs c) (evs c)). reflexivity.
+  - destruct (release_last h (held c)) as [[[r|] hl]|]; [|reflexivity|reflexivity]. destruct (remove_match r (subs c) (evs c)). reflexivity.
   - reflexivity.
   - reflexivity.
   - destruct (has_any p (held c)); reflexivity.
@@ -67,19 +67,19 @@ Lemma steps_trans allowed a b c : steps allowed a b -> steps allowed b c -> step
 Proof. intros A B. induction B as [|x y z B IH S]; [exact A|]. eapply steps_snoc; [apply IH; exact A|exact S]. Qed.
 
 (* ------------------------------------------------------------------ what a step does to held and to the trace *)
-Definition hstep (i : instr) (hl : list (hid * rule)) : list (hid * rule) :=
+Definition hstep (i : instr) (hl : list sub) : list sub :=
   match i with
-  | ISub h r => hl ++ [(h, r)]
-  | IAsyncDrop h => match take_last h hl with Some (_, hl') => hl' | None => hl end
-  | IDrop h => filter (fun x => negb (holds h x)) hl
-  | IClone h' h => hl ++ map (fun r => (h', r)) (rules_of h hl)
+  | ISub h r => hl ++ [([h], r)]
+  | IAsyncDrop h => match release_last h hl with Some (_, hl') => hl' | None => hl end
+  | IDrop h => fst (drop_all h hl)
+  | IClone h' h => share h' h hl
   | IOwnerCheck _ _ | IOwnerAdd _ _ | ILeak _ => hl
-  | IOwnerSet p r => if has_any p hl then hl else hl ++ [(p, r)]
+  | IOwnerSet p r => if has_any p hl then hl else hl ++ [([p], r)]
   end.
 
-Definition pstep (i : instr) (rest : prog) (hl : list (hid * rule)) : prog :=
+Definition pstep (i : instr) (rest : prog) (hl : list sub) : prog :=
   match i with
-  | IAsyncDrop h => match take_last h hl with Some _ => IAsyncDrop h :: rest | None => rest end
+  | IAsyncDrop h => match release_last h hl with Some _ => IAsyncDrop h :: rest | None => rest end
   | IOwnerCheck p r => if has_any p hl then rest else IOwnerAdd p r :: rest
   | IOwnerAdd p r => IOwnerSet p r :: rest
   | _ => rest
@@ -90,7 +90,7 @@ Lemma exec_held i rest c :
 Proof.
   destruct i as [h r|h|h|h' h|p r|p r|p r|r]; cbn [exec hstep pstep].
   - destruct (add_match r (subs c) (evs c)). auto.
-  - destruct (take_last h (held c)) as [[r hl]|]; [|auto]. destruct (remove_match r (subs c) (evs c)). auto.
+  - destruct (release_last h (held c)) as [[[r|] hl]|]; [|auto|auto]. destruct (remove_match r (subs c) (evs c)). auto.
   - auto.
   - auto.
   - destruct (has_any p (held c)); auto.
@@ -99,7 +99,7 @@ Proof.
   - destruct (add_match r (subs c) (evs c)). auto.
 Qed.
 
-Inductive held_final : list (hid * rule) -> prog -> list (hid * rule) -> Prop :=
+Inductive held_final : list sub -> prog -> list sub -> Prop :=
 | hf_done hl : held_final hl [] hl
 | hf_step hl i rest hl' : held_final (hstep i hl) (pstep i rest hl) hl' -> held_final hl (i :: rest) hl'.
 
@@ -115,32 +115,48 @@ Proof.
 Qed.
 
 (* the effect of each whole operation on who holds what = the API-level bookkeeping of the specification *)
-Lemma take_last_none h : forall l, take_last h l = None -> filter (fun x => negb (holds h x)) l = l.
+Definition cnt (h : hid) (l : list sub) : nat := List.length (filter (has h) l).
+
+Lemma has_without h x : has h (without h x) = false.
 Proof.
-  induction l as [|x t IH]; [reflexivity|]. cbn [take_last filter].
-  destruct (take_last h t) as [[r t']|]; [discriminate|].
-  destruct (holds h x) eqn:E; [discriminate|]. cbn [negb]. intros _. rewrite IH; reflexivity.
+  unfold has, without. cbn [fst]. induction (fst x) as [|k t IH]; [reflexivity|]. cbn [filter].
+  destruct (k =? h)%N eqn:E; cbn [negb]; [exact IH|]. cbn [existsb]. rewrite IH, orb_false_r.
+  rewrite N.eqb_sym. exact E.
 Qed.
 
-Lemma take_last_some h : forall l r l', take_last h l = Some (r, l') ->
-  filter (fun x => negb (holds h x)) l = filter (fun x => negb (holds h x)) l' /\ List.length l = S (List.length l').
+Lemma release_last_none h : forall l, release_last h l = None -> fst (drop_all h l) = l.
 Proof.
-  induction l as [|x t IH]; intros r l' H; cbn [take_last] in H; [discriminate|].
-  destruct (take_last h t) as [[r1 t']|] eqn:T.
-  - inversion H; subst. destruct (IH r t' eq_refl) as [F L]. cbn [filter length]. rewrite F, L. auto.
-  - destruct (holds h x) eqn:E; [|discriminate]. inversion H; subst. cbn [filter]. rewrite E. cbn [negb]. auto.
+  induction l as [|x t IH]; [reflexivity|]. cbn [release_last drop_all].
+  destruct (release_last h t) as [[o t']|]; [discriminate|].
+  destruct (has h x) eqn:E; [destruct (emptied (without h x)); discriminate|]. intros _.
+  specialize (IH eq_refl). destruct (drop_all h t) as [t' q]. cbn [fst] in *. rewrite IH. reflexivity.
 Qed.
 
-Lemma async_drop_final h : forall n hl hl', List.length hl <= n ->
-  held_final hl [IAsyncDrop h] hl' -> hl' = filter (fun x => negb (holds h x)) hl.
+Lemma release_last_some h : forall l o l', release_last h l = Some (o, l') ->
+  fst (drop_all h l) = fst (drop_all h l') /\ cnt h l = S (cnt h l').
+Proof.
+  induction l as [|x t IH]; intros o l' H; cbn [release_last] in H; [discriminate|].
+  destruct (release_last h t) as [[o1 t']|] eqn:T.
+  - injection H as Ho Hl; subst o1 l'. destruct (IH o t' eq_refl) as [F L]. cbn [drop_all]. unfold cnt in *. cbn [filter].
+    destruct (drop_all h t) as [a qa]. destruct (drop_all h t') as [b qb]. cbn [fst] in F. subst b.
+    split; [destruct (has h x); [destruct (emptied (without h x))|]; reflexivity|].
+    destruct (has h x); cbn [length]; lia.
+  - destruct (has h x) eqn:E; [|discriminate]. unfold cnt. cbn [filter]. rewrite E. cbn [length].
+    destruct (emptied (without h x)) eqn:Em; injection H as Ho Hl; subst o l'; cbn [drop_all]; rewrite ?E, ?Em.
+    + destruct (drop_all h t) as [a qa]. auto.
+    + rewrite has_without. cbn [filter]. rewrite has_without. destruct (drop_all h t) as [a qa]. auto.
+Qed.
+
+Lemma async_drop_final h : forall n hl hl', cnt h hl <= n ->
+  held_final hl [IAsyncDrop h] hl' -> hl' = fst (drop_all h hl).
 Proof.
   induction n as [|n IH]; intros hl hl' L H; inversion H as [|? ? ? ? H1]; subst; cbn [hstep pstep] in H1.
-  - destruct (take_last h hl) as [[r l1]|] eqn:T.
-    + destruct (take_last_some h hl r l1 T) as [_ L1]. lia.
-    + inversion H1; subst. symmetry. apply take_last_none. exact T.
-  - destruct (take_last h hl) as [[r l1]|] eqn:T.
-    + destruct (take_last_some h hl r l1 T) as [F L1]. rewrite F. apply IH; [lia|exact H1].
-    + inversion H1; subst. symmetry. apply take_last_none. exact T.
+  - destruct (release_last h hl) as [[o l1]|] eqn:T.
+    + destruct (release_last_some h hl o l1 T) as [_ L1]. lia.
+    + inversion H1; subst. symmetry. apply release_last_none. exact T.
+  - destruct (release_last h hl) as [[o l1]|] eqn:T.
+    + destruct (release_last_some h hl o l1 T) as [F L1]. rewrite F. apply IH; [lia|exact H1].
+    + inversion H1; subst. symmetry. apply release_last_none. exact T.
 Qed.
 
 Lemma op_final hl o hl' : plain_op o = true -> held_final hl (prog_of o) hl' -> hl' = objs_after_op hl o.
@@ -148,7 +164,8 @@ Proof.
   intros P H. destruct o as [h r|h' h|h|h|h p [n|] sg|a l]; cbn [prog_of objs_after_op] in *; try discriminate.
   - inversion H as [|? ? ? ? H1]; subst. cbn [hstep pstep] in H1. inversion H1; subst. reflexivity.
   - inversion H as [|? ? ? ? H1]; subst. cbn [hstep pstep] in H1. inversion H1; subst. reflexivity.
-  - apply (async_drop_final h (List.length hl) hl hl' (le_n _) H).
+  - inversion H as [|? ? ? ? H1]; subst. cbn [hstep pstep] in H1. inversion H1; subst. reflexivity.
+  - apply (async_drop_final h (cnt h hl) hl hl' (le_n _) H).
   - inversion H as [|? ? ? ? H1]; subst. cbn [hstep pstep] in H1.
     destruct (has_any p hl) eqn:A.
     + inversion H1 as [|? ? ? ? H2]; subst. cbn [hstep pstep] in H2.
@@ -179,7 +196,7 @@ Lemma exec_evs i rest c :
 Proof.
   destruct i as [h r|h|h|h' h|p r|p r|p r|r]; cbn [exec].
   - pose proof (add_match_evs r (subs c) (evs c)) as A. destruct (add_match r (subs c) (evs c)). exact A.
-  - destruct (take_last h (held c)) as [[r hl]|]; [|auto].
+  - destruct (release_last h (held c)) as [[[r|] hl]|]; [|auto|auto].
     pose proof (remove_match_evs r (subs c) (evs c)) as A. destruct (remove_match r (subs c) (evs c)). exact A.
   - auto.
   - auto.
@@ -207,27 +224,28 @@ Qed.
 
 (* ------------------------------------------------------------------ live subscribers move one way during one call *)
 Definition up_instr (i : instr) : bool :=
-  match i with ISub _ _ | IOwnerCheck _ _ | IOwnerAdd _ _ | IOwnerSet _ _ => true | _ => false end.
+  match i with ISub _ _ | IClone _ _ | IOwnerCheck _ _ | IOwnerAdd _ _ | IOwnerSet _ _ => true | _ => false end.
 Definition down_instr (i : instr) : bool :=
   match i with IAsyncDrop _ | IDrop _ => true | _ => false end.
 
-Definition lv (hl : list (hid * rule)) (r : rule) : nat := count_rule r (map snd hl).
+Definition lv (hl : list sub) (r : rule) : nat := count_rule r (map snd hl).
 
 Lemma lv_live c r : live c r = lv (held c) r.
 Proof. reflexivity. Qed.
 
 Lemma up_hstep i hl r : up_instr i = true -> lv hl r <= lv (hstep i hl) r.
 Proof.
-  unfold lv. destruct i as [h r0|h|h|h' h|p r0|p r0|p r0|r0]; cbn [up_instr hstep]; try discriminate; intros _; try lia.
-  - rewrite map_app, count_rule_app. lia.
-  - destruct (has_any p hl); [lia|]. rewrite map_app, count_rule_app. lia.
+  unfold lv. destruct i as [h r0|h|h|h' h|p r0|p r0|p r0|r0]; cbn [up_instr hstep]; try discriminate; intros _; try apply le_n.
+  - rewrite map_app, count_rule_app. apply Nat.le_add_r.
+  - rewrite share_rules. apply le_n.
+  - destruct (has_any p hl); [apply le_n|]. rewrite map_app, count_rule_app. apply Nat.le_add_r.
 Qed.
 
 Lemma down_hstep i hl r : down_instr i = true -> lv (hstep i hl) r <= lv hl r.
 Proof.
   unfold lv. destruct i as [h r0|h|h|h' h|p r0|p r0|p r0|r0]; cbn [down_instr hstep]; try discriminate; intros _.
-  - destruct (take_last h hl) as [[r1 l1]|] eqn:T; [|lia]. rewrite (take_last_count h hl r1 l1 T r). lia.
-  - rewrite (drop_partition h r hl). lia.
+  - destruct (release_last h hl) as [[o l1]|] eqn:T; [|apply le_n]. rewrite (release_last_count h hl o l1 T r). apply Nat.le_add_r.
+  - rewrite (drop_partition h r hl). apply Nat.le_add_r.
 Qed.
 
 Lemma up_pstep i rest hl : up_instr i = true -> forallb up_instr rest = true -> forallb up_instr (pstep i rest hl) = true.
@@ -239,7 +257,7 @@ Qed.
 Lemma down_pstep i rest hl : down_instr i = true -> forallb down_instr rest = true -> forallb down_instr (pstep i rest hl) = true.
 Proof.
   destruct i as [h r0|h|h|h' h|p r0|p r0|p r0|r0]; cbn [down_instr pstep]; try discriminate; intros _ R; try exact R.
-  destruct (take_last h hl); [|exact R]. cbn [forallb down_instr]. exact R.
+  destruct (release_last h hl); [|exact R]. cbn [forallb down_instr]. exact R.
 Qed.
 
 Lemma prog_direction o : plain_op o = true ->
@@ -363,11 +381,11 @@ Qed.
 Definition no_drop (i : instr) : bool := match i with IDrop _ => false | _ => true end.
 
 Lemma exec_pend i rest c :
-  pend (fst (exec i rest c)) = pend c ++ (match i with IDrop h => rules_of h (held c) | _ => [] end).
+  pend (fst (exec i rest c)) = pend c ++ (match i with IDrop h => snd (drop_all h (held c)) | _ => [] end).
 Proof.
   destruct i as [h r|h|h|h' h|p r|p r|p r|r]; cbn [exec]; try (rewrite app_nil_r).
   - destruct (add_match r (subs c) (evs c)). reflexivity.
-  - destruct (take_last h (held c)) as [[r hl]|]; [|reflexivity]. destruct (remove_match r (subs c) (evs c)). reflexivity.
+  - destruct (release_last h (held c)) as [[[r|] hl]|]; [|reflexivity|reflexivity]. destruct (remove_match r (subs c) (evs c)). reflexivity.
   - reflexivity.
   - reflexivity.
   - destruct (has_any p (held c)); reflexivity.
@@ -382,7 +400,7 @@ Proof. unfold pend_step. destruct (remove_match r (subs c) (evs c)). reflexivity
 Lemma no_drop_pstep i rest hl : no_drop i = true -> forallb no_drop rest = true -> forallb no_drop (pstep i rest hl) = true.
 Proof.
   destruct i as [h r0|h|h|h' h|p r0|p r0|p r0|r0]; cbn [no_drop pstep]; try discriminate; intros _ R; try exact R.
-  - destruct (take_last h hl); [|exact R]. cbn [forallb no_drop]. exact R.
+  - destruct (release_last h hl); [|exact R]. cbn [forallb no_drop]. exact R.
   - destruct (has_any p hl); [exact R|]. cbn [forallb no_drop]. exact R.
 Qed.
 
@@ -402,7 +420,7 @@ Proof.
 Qed.
 
 Lemma run_pend_drop h : forall c p c',
-  run_prog c p c' -> p = [IDrop h] -> forall r, In r (pend c') -> In r (pend c) \/ In r (rules_of h (held c)).
+  run_prog c p c' -> p = [IDrop h] -> forall r, In r (pend c') -> In r (pend c) \/ In r (snd (drop_all h (held c))).
 Proof.
   induction 1 as [c|c i rest c' R IH|c pre r0 post p c' P R IH]; intros Ep r I.
   - discriminate.
@@ -529,6 +547,7 @@ Proof.
       - intros r I. cbn [ost_after o_maybe].
         destruct o as [h r0|h' h|h|h|h p n sg|a l]; try discriminate.
         + cbn [maybe_after]. apply Hp. apply (run_pend_nodrop _ _ _ R eq_refl r I).
+        + cbn [maybe_after]. apply Hp. apply (run_pend_nodrop _ _ _ R eq_refl r I).
         + cbn [maybe_after]. unfold mem_rule. rewrite existsb_app. apply orb_true_iff.
           destruct (run_pend_drop h _ _ _ R eq_refl r I) as [J|J].
           * left. apply Hp. exact J.
@@ -574,7 +593,7 @@ Proof.
     + intros r I. left. unfold subscribers. rewrite <- Hh. apply (Rm r I).
 Qed.
 
-(* every sequential run of the model, over any history outside the two known classes, passes the oracle *)
+(* every sequential run of the model, over any history outside the known class (request_name), passes the oracle *)
 Theorem oracle_sound : forall run c s done c',
   link c s done -> forallb (fun x => plain_item (fst x)) run = true -> run_items c run c' -> spec_ok s run = true.
 Proof.
@@ -589,11 +608,13 @@ Corollary oracle_sound_init run c' :
   forallb (fun x => plain_item (fst x)) run = true -> run_items init run c' -> spec_ok ost0 run = true.
 Proof. apply (oracle_sound run init ost0 [] c' link_init). Qed.
 
-(* non-vacuity: a sequential run with a queued removal that runs at the idle point *)
+(* non-vacuity: two streams on one rule, one of them cloned; the original is dropped (nothing is queued: its clone still
+   shares the subscription), the other stream is dropped (queued, runs at the idle point: still one subscription left),
+   finally the clone is async-dropped: only now RemoveMatch goes out *)
 Definition ex_rule : rule := B "type='signal',interface='a.b',member='X'".
 Definition ex_seq_run : list (item * list ev) :=
-  [ (IOp (OStream 1%N ex_rule), [EAdd ex_rule]); (IOp (OStream 2%N ex_rule), []); (IOp (ODrop 1%N), []);
-    (IOp (OAsyncDrop 2%N), []); (IIdle, [ERem ex_rule]) ].
+  [ (IOp (OStream 1%N ex_rule), [EAdd ex_rule]); (IOp (OStream 2%N ex_rule), []); (IOp (OClone 3%N 1%N), []);
+    (IOp (ODrop 1%N), []); (IOp (ODrop 2%N), []); (IIdle, []); (IOp (OAsyncDrop 3%N), [ERem ex_rule]) ].
 
 Example ex_seq_ok :
   (exists c', run_items init ex_seq_run c') /\ forallb (fun x => plain_item (fst x)) ex_seq_run = true.
@@ -602,11 +623,12 @@ Proof.
   eapply ris_cons; [apply ri_op; cbn [prog_of]; eapply rp_instr; apply rp_done|reflexivity|].
   eapply ris_cons; [apply ri_op; cbn [prog_of]; eapply rp_instr; apply rp_done|reflexivity|].
   eapply ris_cons; [apply ri_op; cbn [prog_of]; eapply rp_instr; apply rp_done|reflexivity|].
-  eapply ris_cons; [apply ri_op; cbn [prog_of]; eapply rp_instr; eapply rp_instr; apply rp_done|reflexivity|].
+  eapply ris_cons; [apply ri_op; cbn [prog_of]; eapply rp_instr; apply rp_done|reflexivity|].
+  eapply ris_cons; [apply ri_op; cbn [prog_of]; eapply rp_instr; apply rp_done|reflexivity|].
   eapply ris_cons.
   - apply ri_idle.
     + eapply (rp_pend _ [] ex_rule []); [reflexivity|]. apply rp_done.
     + reflexivity.
   - reflexivity.
-  - apply ris_nil.
+  - eapply ris_cons; [apply ri_op; cbn [prog_of]; eapply rp_instr; eapply rp_instr; apply rp_done|reflexivity|apply ris_nil].
 Qed.
